@@ -13,7 +13,7 @@ def S(name, quick, thorough):
 
 PROPS = {
     "C04": {"errkinds": False, 
-        "streams": [S("int", 3000, 20000)],
+        "streams": [S("int", 3000, 20000), S("ident", 100, 800)],
         "projection": "full",
         "rule": "int reads: every type at every offset 0..len+9 and usize::MAX-8..usize::MAX of buffers 0..24 bytes, "
                 "boundary and random contents, both orders; thorough adds the exhaustive u8/u16 sweeps. distinct = distinct "
@@ -31,7 +31,7 @@ PROPS = {
     "C11": {"errkinds": False, "streams": [S("gnu", 200, 2500), S("file", 60, 400)], "projection": "parts:ok,err,new,open=,H=,C="},
     "C12": {"errkinds": False, "streams": [S("sysv", 200, 2500), S("file", 60, 400)], "projection": "parts:ok,err,new,open=,H=,C=", "also_tags": []},
     "C13": {"errkinds": False, "streams": [S("symver", 150, 1500), S("file", 80, 500), S("stream", 40, 300), S("verorder", 1, 3)], "projection": "parts:ok,err,r,d0,d1,d2,d3,d4,d5,d6,d7,d8,d9,V=,open="},
-    "C14": {"errkinds": False, "streams": [S("notes", 400, 4000), S("file", 80, 500)], "projection": "parts:ok,err,open=,S,P"},
+    "C14": {"errkinds": False, "streams": [S("notes", 400, 4000), S("file", 80, 500), S("stream", 20, 150), S("streamcache", 2, 6)], "projection": "parts:ok,err,open=,S,P"},
     "C16": {"streams": [S("sysv", 120, 1200), S("gnu", 120, 1200), S("symver", 120, 1200), S("notes", 200, 2000),
                         S("table", 300, 2000), S("file", 60, 400), S("stream", 20, 150), S("streamfault", 3, 20)], "projection": "status", "timed": True, "also_tags": ["C17"]},
     "C07": {"errkinds": False, "streams": [S("stream", 60, 600), S("streamhdr", 1, 2), S("streamcache", 2, 6), S("verorder", 1, 3), S("bigstream", 1, 1), S("streamfault", 3, 20)], "projection": "full", "also_tags": ["C05", "C09", "C20", "C17"]},
